@@ -239,6 +239,30 @@ def run(index, tier="quick", seed=0) -> Result:
                             f"{'para' if want else 'meta'} isomer has {'one' if want else 'none'} (the vertex tables of the para / meta isomers are exchanged)")
     if niso < 11:
         raise AnalysisError(f"ISOMER-1: only {niso} Parabi/Metabi entries found (11 in johnson.json confirmed)")
+    # ISOMER-2: the two golden rhombohedra (rhombic faces with diagonals in the golden ratio, cos(theta) = 1/sqrt(5)): the acute
+    # (prolate) one has volume a^3 sqrt(1 - 3 c^2 + 2 c^3) = 0.76085 a^3, the obtuse (oblate) one a^3 sqrt(1 - 3 c^2 - 2 c^3) = 0.47023 a^3
+    c5 = 1 / np.sqrt(5.0)
+    want_ratio = {"Acute": float(np.sqrt(1 - 3 * c5 ** 2 + 2 * c5 ** 3)), "Obtuse": float(np.sqrt(1 - 3 * c5 ** 2 - 2 * c5 ** 3))}
+    ngr = 0
+    for stem, d in data.items():
+        for key, rec in d.items():
+            for nm in {key, rec.get("name")} - {None}:
+                if not isinstance(nm, str) or "Golden Rhombohedron" not in nm or nm.split()[0] not in want_ratio:
+                    continue
+                try:
+                    g = geometry(np.asarray(rec.get("vertices"), dtype=float))
+                    ratio = g["volume"] / float(np.min(g["edge_lengths"])) ** 3
+                except Exception:
+                    continue
+                ngr += 1
+                k = f"{stem}:{nm}:volume"
+                if abs(ratio - want_ratio[nm.split()[0]]) < 1e-3:          # (tables are rounded: the two forms differ by 0.29)
+                    res.ok("ISOMER-2", k, sample={"entry": f"{stem}:{nm}", "volume_over_edge_cubed": round(ratio, 9)})
+                else:
+                    res.bad("ISOMER-2", k, f"{DATA}/{stem}.json", f"{stem}.json: the table filed as {nm!r} has volume / edge^3 = {ratio:.6f}; the "
+                            f"{nm.split()[0].lower()} golden rhombohedron has {want_ratio[nm.split()[0]]:.6f} (the acute and the obtuse table are exchanged)")
+    if ngr < 2:
+        raise AnalysisError(f"ISOMER-2: only {ngr} golden rhombohedron entries found (2 confirmed)")
     res.extra["sourced_entries"] = nsrc
     if nent < 290:
         raise AnalysisError(f"only {nent} entries audited (290 confirmed)")
